@@ -31,7 +31,7 @@ FUNCTIONS = [
 BOUNDS = {
     "quick": "all 2^(H*W)-1 masks (>=1 unmasked pixel) of every shape with H*W <= 9 (kernels) / <= 8 (classes); 1D masks of length <= 6; "
              "native/slim values, both storage modes: symbolic reals; plus listed larger masks (1D lengths 17-40, 2D up to 5x6) and "
-             "C / Fortran / transposed-view memory layouts of the mask; re-masking by a second mask: shifted/flipped copies of every mask, "
+             "C / Fortran / transposed-view memory layouts of the mask and masks supplied as int / float ndarray or nested list; re-masking by a second mask: shifted/flipped copies of every mask, "
              "and every PAIR of masks of shapes with <= 5 pixels",
     "thorough": "all masks of every shape with H*W <= 12 (kernels and classes); 1D masks of length <= 8; every pair of masks of shapes <= 7 pixels",
     "merged": "additionally the slim/native/index kernels with the mask bits left symbolic (merge interpreter, ONE path = all 2^(H*W) masks "
@@ -178,14 +178,16 @@ def body_remask_2d(inp, H, W):
 
 def body_classes_2d(inp, H, W, layout="C"):
     import autoarray as aa
-    mask = _layout(np.array(inp["mask"], dtype=bool).reshape(H, W), layout)
+    mask = _layout(np.array(inp["mask"], dtype=bool).reshape(H, W), layout if layout in ("C", "F", "T") else "C")
     v = np.asarray(inp["v"]).reshape(H, W)
     g = np.asarray(inp["g"]).reshape(H, W, 2)
     pos = _ref(mask)
     n = len(pos)
     s = np.asarray(inp["s"]).reshape(-1)[:n]
     gs = np.asarray(inp["gs"]).reshape(-1, 2)[:n]
-    m = aa.Mask2D(mask=mask, pixel_scales=(1.0, 2.0))
+    # the mask may be handed to Mask2D as bool ndarray, integer 0/1 ndarray, float ndarray or nested list (seed C01-m)
+    mask_in = {"I": lambda: mask.astype(int), "D": lambda: mask.astype(float), "L": lambda: mask.tolist()}.get(layout, lambda: mask)()
+    m = aa.Mask2D(mask=mask_in, pixel_scales=(1.0, 2.0))
     A, E = {}, {}
     e_slim_v = np.array([v[p] for p in pos], dtype=object)
     e_nat_v = np.zeros((H, W), dtype=object)
@@ -462,6 +464,9 @@ def _cases(tier):
     for (H, W) in [(2, 3), (3, 2), (3, 3)] + ([] if tier == "quick" else [(2, 4), (4, 2), (3, 4)]):
         for lay in ("F", "T"):
             out.append(("case_kernels_2d", {"H": H, "W": W, "layout": lay}))
+            out.append(("case_classes_2d", {"H": H, "W": W, "layout": lay}))
+    for (H, W) in [(2, 2), (2, 3)] + ([] if tier == "quick" else [(3, 2), (3, 3)]):
+        for lay in ("I", "D", "L"):          # mask supplied as int / float ndarray or nested list
             out.append(("case_classes_2d", {"H": H, "W": W, "layout": lay}))
     out.sort(key=lambda c: -(c[1].get("H", 1) * c[1].get("W", c[1].get("N", 1))))
     for (H, W) in ([(3, 4)] if tier == "quick" else [(3, 4), (4, 4), (3, 5)]):
